@@ -355,14 +355,13 @@ def main(argv):
     c.sample({"case": lines[len(rcases) // 2][:200]})
     c.sample({"case": lines[1 + len(rcases) + 8][:200]})
 
-    results, events = codeclog.run_logged(impl, lines, timeout_case=10)
+    results, events = codeclog.run_logged(impl, lines, timeout_case=5)
     if len(results) != len(lines):
         c.broken.append("harness hx_compress produced %d results for %d cases" % (len(results), len(lines)))
         return c.finish(rule="harness failed")
 
-    # --- the constants the translator read, as the compiled code has them
-    if results[0] != "K 6":
-        pass
+    if "SKIPPED" in results:
+        c.broken.append("%d cases were not run after repeated hangs/crashes of the harness" % results.count("SKIPPED"))
     r_res = results[1:1 + len(rcases)]
     r_ev = events[1:1 + len(rcases)]
     w_res = results[1 + len(rcases):1 + len(rcases) + len(wcases)]
@@ -379,7 +378,7 @@ def main(argv):
         if len(mout) != len(mlines):
             c.broken.append("model driver produced %d lines for %d cases (rc %s) %s" % (len(mout), len(mlines), rc, merr[-300:]))
         else:
-            dis = [(l, a, b) for l, a, b in zip(lines, mout, results) if a != b]
+            dis = [(l, a, b) for l, a, b in zip(lines, mout, results) if a != b and b != "SKIPPED"]
             c.cov["traces_validated_against_impl"] += len(lines)
             if dis:
                 l, a, b = min(dis, key=lambda d: len(d[0]))
@@ -391,6 +390,8 @@ def main(argv):
         line = "R %s %s %s" % (hexd(x["stream"]), csv(x["frags"]), csv(x["amounts"]))
         rep = {"op": "read", "harness_line": line[:4000], "stream_len": len(x["stream"]), "bucket": x["bucket"], "impl": res[:300],
                "how": "echo '<harness_line>' | hx_compress   (or: feed the stream bytes to any tool reading through util::FilePiece / ReadCompressed)"}
+        if res == "SKIPPED":
+            continue
         if res.startswith("HANG") or res.startswith("CRASH"):
             c.violation("read-hang-or-crash: reading a %d-byte stream (%s) gave %s" % (len(x["stream"]), x["bucket"], res), rep)
             continue
@@ -414,6 +415,8 @@ def main(argv):
         rep = {"op": "write", "harness_line": line[:4000], "compression": x["comp"], "ops": [o[:40] for o in x["ops"]][:40],
                "data_len": len(x["data"]), "impl": res[:200],
                "how": "echo '<harness_line>' | MALLOC_PERTURB_=165 hx_compress ; no data at all: printf 'a\\n' | shard -c %s s0 s1 s2 s3" % x["comp"]}
+        if res == "SKIPPED":
+            continue
         if not res.startswith("OK"):
             c.violation("write-failed: %s writer, ops %s...: %s" % (x["comp"], ",".join(o[:12] for o in x["ops"][:6]), res), rep)
             continue
@@ -440,6 +443,8 @@ def main(argv):
 
     for (lvl, d), res, ev in zip(zcases, z_res, z_ev):
         rep = {"op": "GZCompress", "harness_line": ("Z %d %s" % (lvl, hexd(d)))[:4000], "level": lvl, "data_len": len(d), "impl": res[:200]}
+        if res == "SKIPPED":
+            continue
         if not res.startswith("OK"):
             c.violation("gzcompress-failed: %d bytes level %d: %s" % (len(d), lvl, res), rep)
             continue
